@@ -33,8 +33,6 @@ def tyName : Ty → String
 
 def Atom.name : Atom → String
   | .ty t => tyName t
-  | .callable true _ => "Optional"
-  | .callable false _ => "Callable"
   | .typeSet => "TypeSet"
   | .deferred => "Object"     -- the meta type `Deferred` is an Object type (printed by name or as Object[{name => …}])
 
@@ -43,7 +41,6 @@ def expHeads (e : Exp) : List String :=
   let (e', optional) : Exp × Bool :=
     match e with
     | .atom (.ty (.optional t)) => (Exp.ofTy t, true)
-    | .atom (.callable true c) => (.atom (.callable false c), true)
     | e => (e, false)
   match e'.split with
   | .inr ms =>
